@@ -28,6 +28,7 @@ import (
 	"strconv"
 	"strings"
 	"sync"
+	"sync/atomic"
 	"testing"
 
 	"github.com/cenkalti/rain/v2/internal/logger"
@@ -444,11 +445,11 @@ type env struct {
 }
 
 func (e *env) add(name string, n int64) {
-	v, _ := e.cnt.LoadOrStore(name, new(int64))
-	p := v.(*int64)
-	e.dmu.Lock()
-	*p += n
-	e.dmu.Unlock()
+	v, ok := e.cnt.Load(name)
+	if !ok {
+		v, _ = e.cnt.LoadOrStore(name, new(int64))
+	}
+	atomic.AddInt64(v.(*int64), n)
 }
 
 func (e *env) get(name string) int64 {
@@ -456,9 +457,7 @@ func (e *env) get(name string) int64 {
 	if !ok {
 		return 0
 	}
-	e.dmu.Lock()
-	defer e.dmu.Unlock()
-	return *(v.(*int64))
+	return atomic.LoadInt64(v.(*int64))
 }
 
 // resolve is the reference model of "a storage rooted at root opens relative name p": the only
@@ -486,9 +485,11 @@ func (e *env) pureCheck(tc *tcase, order int64, info *metainfo.Info, flags strin
 		}
 		switch {
 		case final == root:
+			e.add("esc equals-root "+short(info.Name), 1)
 			e.viol.add("C07.pure.equals-root."+tc.inputClass(), order,
 				fmt.Sprintf("%s (NewInfo %s) is accepted; file %d has Info path %q which resolves to the data directory itself (%s, DataDirIncludesTorrentID=%v): the client tries to open the directory as the torrent's file", tc, flags, i, f.Path, root, idOn), mk("equals-root"))
 		case !strictlyInside(root, final):
+			e.add("esc above-root "+short(info.Name), 1)
 			e.viol.add("C07.pure.above-root."+tc.inputClass(), order,
 				fmt.Sprintf("%s (NewInfo %s) is accepted; file %d has Info path %q which resolves to %q, outside the torrent's data directory %s (DataDirIncludesTorrentID=%v)", tc, flags, i, f.Path, final, root, idOn), mk("above-root"))
 		}
@@ -573,8 +574,10 @@ func TestC07(t *testing.T) {
 	}
 	defer os.RemoveAll(base)
 	e := &env{rep: rep, viol: &vagg{m: map[string]*vrec{}}, base: base, dist: map[uint64]struct{}{}}
-	e.pureR[0], e.pureR[1] = dataDirFor(filepath.Join(base, "pure", "outer", "data"), false), dataDirFor(filepath.Join(base, "pure", "outer", "data"), true)
-	if e.pureR[0] != filepath.Join(base, "pure", "outer", "data") || !strictlyInside(e.pureR[0], e.pureR[1]) {
+	// the pure oracle touches no file system: a fixed root keeps descriptions identical from run to run
+	const pureData = "/sandbox/outer/data"
+	e.pureR[0], e.pureR[1] = dataDirFor(pureData, false), dataDirFor(pureData, true)
+	if e.pureR[0] != pureData || !strictlyInside(e.pureR[0], e.pureR[1]) {
 		core.HarnessError("unexpected data dirs from the session storage provider: %q %q", e.pureR[0], e.pureR[1])
 	}
 
@@ -634,20 +637,41 @@ func TestC07(t *testing.T) {
 		"tar_cases", "tar_parsed_ok", "tar_entries_written_inside", "tar_rejected_as_escape", "tar_other_error", "tar_cases_outside_change", "tar_raw_headers", "tar_pax_headers", "tar_unencodable", "tar_links_or_specials_created_inside"} {
 		rep.Extra[k] = e.get(k)
 	}
+	for _, kind := range []string{"above-root", "equals-root"} {
+		var l []string
+		e.cnt.Range(func(k, v any) bool {
+			if s := k.(string); strings.HasPrefix(s, "esc "+kind+" ") {
+				l = append(l, strings.TrimPrefix(s, "esc "+kind+" "))
+			}
+			return true
+		})
+		sort.Strings(l)
+		if len(l) > 40 {
+			l = append(l[:40], fmt.Sprintf("... %d more", len(l)-40))
+		}
+		rep.Extra["effective_names_resolving_"+kind] = l
+	}
 	rep.Extra["cases_pure"] = int64(len(cases))
 	rep.Extra["distinct_path_vectors"] = pureDistinct
 	rep.Extra["distinct_tars"] = tarDistinct
 	rep.Extra["bounds"] = fmt.Sprintf("names S(%d), components S(%d), pairs S(%d)^2, tar names S(%d)", L, Lc, L2, Ltar)
 
-	// non-vacuity self-checks
-	if e.get("newinfo_accepted") == 0 || e.get("rejected_dotdot_component") == 0 || e.get("rejected_duplicate") == 0 {
-		core.HarnessError("vacuous pure part: accepted=%d rejected(..)=%d rejected(dup)=%d", e.get("newinfo_accepted"), e.get("rejected_dotdot_component"), e.get("rejected_duplicate"))
+	fatal := func(f string, a ...any) { os.RemoveAll(base); core.HarnessError(f, a...) }
+	// non-vacuity self-checks (only meaningful when nothing was reported: a tree in which e.g. the escape
+	// check of readData is gone shows up as violations, not as a harness error)
+	if len(e.viol.m) == 0 {
+		if e.get("newinfo_accepted") == 0 || e.get("newinfo_rejected") == 0 {
+			fatal("vacuous pure part: accepted=%d rejected=%d", e.get("newinfo_accepted"), e.get("newinfo_rejected"))
+		}
+		if e.get("tar_rejected_as_escape") == 0 {
+			fatal("vacuous tar part: no hostile entry was ever refused and none escaped")
+		}
 	}
 	if e.get("fs_files_opened_inside") == 0 || e.get("fs_cases_created_inside") == 0 {
-		core.HarnessError("vacuous real-FS part: no file was ever created inside the data directory")
+		fatal("vacuous real-FS part: no file was ever created inside the data directory")
 	}
-	if e.get("tar_entries_written_inside") == 0 || e.get("tar_rejected_as_escape") == 0 {
-		core.HarnessError("vacuous tar part: written=%d rejected=%d", e.get("tar_entries_written_inside"), e.get("tar_rejected_as_escape"))
+	if e.get("tar_entries_written_inside") == 0 || e.get("tar_parsed_ok")*10 < e.get("tar_cases")*9 {
+		fatal("vacuous tar part: written=%d parsed=%d of %d", e.get("tar_entries_written_inside"), e.get("tar_parsed_ok"), e.get("tar_cases"))
 	}
 	e.viol.flush(rep)
 	os.RemoveAll(base)
@@ -697,16 +721,20 @@ func (e *env) runCase(sb [2]*sandbox, tc *tcase, order int64, local map[uint64]s
 // ---------------------------------------------------------------- sandbox tree
 
 type sandbox struct {
+	guard    string // snapshot root; top lies three guard levels below it so that a climbing escape stays inside the compared tree
 	top      string
 	baseline map[string]string
 	idOn     bool // fixed per sandbox
 	built    bool
 	dirty    bool // something outside the allowed region changed: rebuild completely
+	foreign  bool // remove part, id off: other torrents' data lives inside the shared data directory
 }
 
-func newSandbox(top string, idOn bool) *sandbox { return &sandbox{top: top, idOn: idOn} }
+func newSandbox(guard string, idOn bool) *sandbox {
+	return &sandbox{guard: guard, top: filepath.Join(guard, "g1", "g2", "g3"), idOn: idOn}
+}
 
-func (s *sandbox) destroy() { chmodAll(s.top); os.RemoveAll(s.top) }
+func (s *sandbox) destroy() { chmodAll(s.guard); os.RemoveAll(s.guard) }
 
 func chmodAll(top string) {
 	filepath.Walk(top, func(p string, fi os.FileInfo, err error) error {
@@ -719,7 +747,7 @@ func chmodAll(top string) {
 
 func (s *sandbox) dataDir() string { return filepath.Join(s.top, "outer", "data") }
 
-var sentinelNames = []string{"S", "a", " ", "aa", "\\", "a./a", "t/a"}
+var sentinelNames = []string{"S", "a", "t/a"}
 
 func writeSentinels(dir string) {
 	for _, n := range sentinelNames {
@@ -749,6 +777,7 @@ func (s *sandbox) prepare() string {
 		os.RemoveAll(root)
 		if !idOn {
 			os.Mkdir(root, 0o755)
+			s.writeForeign()
 		}
 		return root
 	}
@@ -763,9 +792,25 @@ func (s *sandbox) prepare() string {
 		writeSentinels(filepath.Join(s.dataDir(), torrentID+"x"))
 		writeSentinels(filepath.Join(s.dataDir(), "other"))
 	}
+	s.writeForeign()
 	s.built, s.dirty = true, false
-	s.baseline = snapshot(s.top)
+	s.baseline = snapshot(s.guard)
 	return dataDirFor(s.dataDir(), idOn)
+}
+
+// writeForeign puts another torrent's directory and file into the shared data directory (id off only);
+// their names are outside every enumerated name set, so no enumerated torrent legitimately owns them.
+func (s *sandbox) writeForeign() {
+	if !s.foreign || s.idOn {
+		return
+	}
+	for _, n := range []string{"zz-other-torrent/a", "zz-other-single-file"} {
+		p := filepath.Join(s.dataDir(), n)
+		os.MkdirAll(filepath.Dir(p), 0o755)
+		if err := os.WriteFile(p, []byte("another torrent's data: "+n+"\n"), 0o644); err != nil {
+			core.HarnessError("sandbox: %v", err)
+		}
+	}
 }
 
 // snapshot is the complete image of a tree: type, permission, size and content hash of every entry.
